@@ -52,6 +52,11 @@ theorem C05_order_matters (c s : Rat) (t p : Pt) :
     simp only [rot] at hx hy
     apply Pt.ext' <;> simp only [tr, rot] <;> linarith
 
+/-- the same for the model `rt` of `transform.rotate_translate` (tied to the source in T05): `translate_rotate` and
+    `rotate_translate` agree on a point iff the translation is fixed by the rotation. -/
+theorem C05_tr_vs_rt (c s : Rat) (t p : Pt) : tr c s t p = rt c s t p ↔ rot c s t = t :=
+  C05_order_matters c s t p
+
 /-- Sense of rotation — counter-clockwise, for all `(c, s)`: the unit vector `e₁` goes to `(c, s)` and `e₂` to `(-s, c)`;
     these are the values the harness reads back from every public `translate_rotate` (probe cases). -/
 theorem C05_rotation_sense (c s : Rat) :
